@@ -27,7 +27,7 @@ impl MessageBatch {
     }
 
     pub fn exceeded_interval(&self, now: Instant) -> bool {
-        now >= self.last_run + self.config.interval
+        now.saturating_duration_since(self.last_run) >= self.config.interval
     }
 
     pub fn exceeded_batch_size(&self) -> bool {
@@ -41,7 +41,9 @@ impl MessageBatch {
 
 impl From<BatchConfig> for MessageBatch {
     fn from(config: BatchConfig) -> Self {
-        let batch = Vec::with_capacity(config.batch_size as usize);
+        // The batch size is a threshold, not a reservation: do not allocate up front
+        // whatever the configuration asks for (u32::MAX would be a 96 GiB request).
+        let batch = Vec::new();
         let last_run = Instant::now();
 
         Self {
